@@ -1,6 +1,6 @@
 (* C02 — every plan segments the record safely and completely (statements only; proofs in SchedThms.v) *)
 From Coq Require Import ZArith List Reals Lra Lia.
-From SK Require Import Arith Sched SchedThms NewLtf.
+From SK Require Import Arith Sched SchedThms NewLtf SchedTerm.
 Import ListNotations.
 
 (* iterative LTF scheduler (and LPSD = LTF with bmin=1, Lmin=1), for every admissible configuration, every oracle
@@ -34,6 +34,12 @@ Theorem C02_safe_bin_validates : forall (c : cfg RA) l k d, bin_int_ok c l k -> 
   validate_bin (cN c) (cLmin c) l k d = true.
 Proof. exact safe_validates. Qed.
 Print Assumptions C02_safe_bin_validates.
+
+(* building the plan never fails: with a total x**0.5 oracle the loop ends within N steps (no fuel exhaustion, no miss) *)
+Theorem C02_ltf_plan_never_fails : forall ph (c : cfg RA), admissible c -> (forall x, ph x <> None) ->
+  exists bs, ltf_bins RA ph (Z.to_nat (cN c)) c = Ok bs.
+Proof. exact ltf_plan_never_fails. Qed.
+Print Assumptions C02_ltf_plan_never_fails.
 
 (* non-vacuity: an admissible configuration exists *)
 Example C02_admissible_exists : admissible (@mkCfg RA 100%Z 1%R (/2)%R 1%R 1%Z 10%Z (/10)%R).
